@@ -850,6 +850,13 @@ def gen_vec(rng, quick):
                     for t in tg:
                         H.append(Hist('vec', [mx, osz, opt], pre, t, tail, 'vec/o%d/s%d/m%d/n%d' % (opt, osz, mx, n)))
                     H.append(Hist('vec', [mx, osz, opt], pre + ['first'], 'next', ['next', 'next', 'next'] + tail, 'vec/o%d/s%d/m%d/n%d/retry' % (opt, osz, mx, n)))
+    # element sizes at and around the sizes a fixed scratch buffer would have (the reversal's temporary, copies handed out)
+    for osz in (16, 63, 64, 65, 255, 256, 257, 300):
+        for n in (2, 3):
+            pre = ['addlast %s' % hexs(val(i, osz)) for i in range(n)]
+            tail = ['getat 0', 'getat -1', 'toarray', 'size']
+            for t in ('reverse', 'toarray', 'getat 1', 'popat 0', 'addfirst %s' % hexs(val(31, osz)), 'addself 0 -1'):
+                H.append(Hist('vec', [2, osz, 2], pre, t, tail, 'vec/o2/s%d/m2/n%d' % (osz, n)))
     return H
 
 
